@@ -7,6 +7,7 @@
            lit    array literals as bracket trees (rectangular / ragged), behind the property: how operands are built
            scaled rank-deficient and regular base matrices multiplied by large / small / complex scalars, negative powers
            src    a scalar operand obtained from a function call, a negated call, a product ... on either side of an array
+           near   exponents at distance 1e-3 .. 1e-9 (and 0) from an integer, written as a decimal, a sum, a 0-dim array
            scope  call histories: graders with negative powers disabled / enabled interleaved with direct operations
    Operands are carried in compact form  [sh |-> shape, e |-> << <<a, b, d>>, ... >>]  meaning (a + b i) / d. *)
 EXTENDS ArrayAlgebra
@@ -147,6 +148,14 @@ SrcApplies(src, q, op, side) ==
 SrcArrays == {Arr(sh, 1) : sh \in ArrayShapes}
              \cup {Arr(sh, NReal + 1) : sh \in (IF Big THEN ArrayShapes ELSE {<<2>>, <<2, 2>>})}
 
+\* ---- part near: square matrices to exponents next to integers
+RECURSIVE Ten(_)
+Ten(n) == IF n = 0 THEN 1 ELSE 10 * Ten(n - 1)
+NearBases == {-2, -1, 0, 1, 2, 3, 5}
+NearMatrices == {N2, NC2, M3}
+Writings == {"decimal", "sum", "array0"}       \* 2.00001   (2+0.00001)   a zero-dimensional array holding 2.00001
+NearExp(b, d, p) == Sc(b * Ten(p) + d, 0, Ten(p))
+
 VARIABLES c, out
 
 Seeds ==
@@ -154,6 +163,7 @@ Seeds ==
   ELSE IF Part = "pow" THEN {[kind |-> "seed", r1 |-> r, neg |-> ng] : r \in PowRow, ng \in BOOLEAN}
   ELSE IF Part = "chain" THEN {[kind |-> "seed", n |-> n, ops |-> ops] : n \in ChainDims, ops \in UNION {OpPatterns(L) : L \in 2..4}}
   ELSE IF Part = "lit" THEN {[kind |-> "seed", lvl |-> i] : i \in 1..3}
+  ELSE IF Part = "near" THEN {[kind |-> "seed", m |-> m, neg |-> ng, wr |-> w] : m \in NearMatrices, ng \in BOOLEAN, w \in Writings}
   ELSE IF Part = "scaled" THEN {[kind |-> "seed", fam |-> f] : f \in ScaledFamilies}
   ELSE IF Part = "src" THEN {[kind |-> "seed", op |-> op, side |-> sd, src |-> sr] : op \in Ops, sd \in {"left", "right"}, sr \in Sources}
   ELSE {[kind |-> "scope", flag |-> TRUE, inside |-> "none", phase |-> "idle", saved |-> TRUE, hist |-> <<>>]}
@@ -198,13 +208,19 @@ NextScope ==
   \/ /\ c.phase = "student"                        \* the student's input is evaluated, then exit on every path
      /\ c' = [c EXCEPT !.inside = "none", !.phase = "idle", !.flag = TRUE, !.hist = Append(c.hist, c.inside)]
      /\ out' = Append(out, AllowedFor(c.inside, c.flag))
+NextNear == /\ \E b \in NearBases, d \in {-1, 0, 1}, p \in 3..9 :
+                 /\ (p = 9 => (b \in -2..2))                        \* 32-bit integers
+                 /\ (d = 0 => p = 3)
+                 /\ c' = [kind |-> "near", m |-> c.m, neg |-> c.neg, wr |-> c.wr, base |-> b, d |-> d, p |-> p,
+                          y |-> NearExp(b, d, p)]
+            /\ out' = Op("^", Ex(c'.m), Ex(c'.y), c'.neg)
 NextLit == /\ c' \in [kind : {"lit"}, t : IF c.lvl = 1 THEN Lit1 ELSE IF c.lvl = 2 THEN Lit2 ELSE Lit3]
            /\ out' = LitShape(c'.t)
 Next == IF Part = "scope" THEN NextScope
         ELSE /\ c.kind = "seed"
              /\ IF Part = "bin" THEN NextBin ELSE IF Part = "pow" THEN NextPow
                 ELSE IF Part = "chain" THEN NextChain ELSE IF Part = "scaled" THEN NextScaled
-                ELSE IF Part = "src" THEN NextSrc ELSE NextLit
+                ELSE IF Part = "src" THEN NextSrc ELSE IF Part = "near" THEN NextNear ELSE NextLit
 
 IsBin == c.kind = "bin"
 X == Ex(c.x)
@@ -213,6 +229,9 @@ PowX == Ex([sh |-> <<2, 2>>, e |-> c.r1 \o c.r2])
 
 \* ---- laws, one INVARIANT each
 InvOutcomeDomain == (c.kind \in {"bin", "pow", "chain"}) => out.k \in {"val", "err", "nopred"}
+InvNear == (c.kind = "near") => /\ LawNearInteger(Ex(c.m), c.base, c.d, c.p, c.neg)
+                                /\ Ex(c.y) = NearInteger(c.base, c.d, c.p)
+                                /\ (c.d # 0 => out.k = "err")
 InvScaled == (c.kind = "scaled") => (out.k \in {"val", "err"} /\ LawScaleInvariance(Ex(c.base), GQ(c.s), Ex(c.y), TRUE))
 \* the source of a scalar is not an argument of Op: the same scalar from any source gives the literal's outcome
 InvSrc == (c.kind = "src") => /\ out.k \in {"val", "err"}
